@@ -4,6 +4,7 @@ Model driver: one request per line on stdin, one answer per line on stdout.
 -/
 import GoSandbox.Model.DriverC18
 import GoSandbox.Model.DriverC09
+import GoSandbox.Model.DriverC15
 
 open GoSandbox
 
@@ -13,6 +14,7 @@ def dispatch (ws : List String) : Option String :=
   | cmd :: _ =>
     if cmd.startsWith "c18." then Driver.C18.handle ws
     else if cmd.startsWith "c09." then Driver.C09.handle ws
+    else if cmd.startsWith "c15." then Driver.C15.handle ws
     else none
 
 partial def loop (hin hout : IO.FS.Stream) : IO Unit := do
